@@ -149,7 +149,8 @@ where
                     }
                 } else if e0.is_finite() && u * e0 <= 1e-4 * (1.0 + f0.abs()) {
                     let d = (a0 - f0).abs();
-                    if d > 2.0 * K * u * e0 {
+                    let floor = if T::IS_F32 { 1e-30 } else { 1e-290 };
+                    if d > 2.0 * K * u * e0 + floor {
                         acc.violate(
                             format!("float-bound:{}:{}", opn, tname),
                             format!("node {} ({:?}) on {}: real part {:e} vs float program {:e}: |diff| {:.3e} > bound {:.3e}", ni, node, tname, a0, f0, d, 2.0 * K * u * e0),
